@@ -352,3 +352,95 @@ theorem numberOfClasses_gt (ls : List Nat) : ∀ l ∈ ls, l < numberOfClasses l
 
 end Svm
 end SharkVerif.Import
+
+namespace SharkVerif.Import
+
+/-! ### `optimalBatchSizes` -/
+
+theorem foldl_add_init (l : List Nat) (a : Nat) : l.foldl (· + ·) a = a + l.foldl (· + ·) 0 := by
+  induction l generalizing a with
+  | nil => simp
+  | cons x t ih => simp only [List.foldl_cons, Nat.zero_add]; rw [ih (a + x), ih x]; omega
+
+theorem sum_range_steps (opt rem : Nat) : ∀ b, ((List.range b).map fun j => if j < rem then opt + 1 else opt).foldl (· + ·) 0
+    = b * opt + min rem b := by
+  intro b
+  induction b with
+  | zero => simp
+  | succ b ih =>
+    rw [List.range_succ, List.map_append, List.foldl_append, ih]
+    simp only [List.map_cons, List.map_nil, List.foldl_cons, List.foldl_nil]
+    rw [Nat.succ_mul]
+    split <;> omega
+
+/-- number of batches chosen by `optimalBatchSizes` -/
+def numBatches (n maxB : Nat) : Nat := if n - n / maxB * maxB > 0 then n / maxB + 1 else n / maxB
+
+theorem numBatches_pos {n maxB : Nat} (hn : 0 < n) (hm : 0 < maxB) : 0 < numBatches n maxB := by
+  unfold numBatches
+  split
+  · exact Nat.succ_pos _
+  · rename_i h
+    have hdm := Nat.div_add_mod n maxB
+    have : n / maxB * maxB = maxB * (n / maxB) := Nat.mul_comm _ _
+    have hz : n % maxB = 0 := by omega
+    have : 0 < n / maxB := by
+      rcases Nat.eq_zero_or_pos (n / maxB) with h0 | h0
+      · rw [h0] at hdm; omega
+      · exact h0
+    exact this
+
+theorem le_numBatches_mul {n maxB : Nat} (hm : 0 < maxB) : n ≤ numBatches n maxB * maxB := by
+  unfold numBatches
+  have hdm := Nat.div_add_mod n maxB
+  have hmod := Nat.mod_lt n hm
+  have hc : n / maxB * maxB = maxB * (n / maxB) := Nat.mul_comm _ _
+  split
+  · rw [Nat.succ_mul]; omega
+  · omega
+
+theorem optimalBatchSizes_eq (n maxB : Nat) : optimalBatchSizes n maxB =
+    (List.range (numBatches n maxB)).map fun j =>
+      if j < n - numBatches n maxB * (n / numBatches n maxB) then n / numBatches n maxB + 1 else n / numBatches n maxB := by
+  unfold optimalBatchSizes numBatches
+  rfl
+
+/-- the batch sizes add up to the number of rows -/
+theorem optimalBatchSizes_sum {n maxB : Nat} (hn : 0 < n) (hm : 0 < maxB) :
+    (optimalBatchSizes n maxB).foldl (· + ·) 0 = n := by
+  rw [optimalBatchSizes_eq, sum_range_steps]
+  have hb := numBatches_pos hn hm
+  generalize numBatches n maxB = b at *
+  have hdm := Nat.div_add_mod n b
+  have hmod := Nat.mod_lt n hb
+  have : n - b * (n / b) = n % b := by omega
+  rw [this, Nat.min_eq_left (Nat.le_of_lt hmod)]
+  omega
+
+/-- no batch is larger than requested -/
+theorem optimalBatchSizes_le {n maxB : Nat} (hn : 0 < n) (hm : 0 < maxB) :
+    ∀ x ∈ optimalBatchSizes n maxB, x ≤ maxB := by
+  rw [optimalBatchSizes_eq]
+  have hb := numBatches_pos hn hm
+  have hle := le_numBatches_mul (n := n) hm
+  generalize numBatches n maxB = b at *
+  have hopt : n / b ≤ maxB := Nat.div_le_of_le_mul hle
+  intro x hx
+  obtain ⟨j, _, rfl⟩ := List.mem_map.mp hx
+  split
+  · rename_i hj
+    -- remainder positive ⇒ opt < maxB
+    have hrem : 0 < n - b * (n / b) := by omega
+    rcases Nat.lt_or_ge (n / b) maxB with h | h
+    · omega
+    · exfalso
+      have h1 : b * maxB ≤ b * (n / b) := Nat.mul_le_mul_left _ h
+      have h2 : b * maxB = maxB * b := Nat.mul_comm _ _
+      have h3 : n ≤ b * maxB := hle
+      omega
+  · exact hopt
+
+theorem optimalBatchSizes_length (n maxB : Nat) : (optimalBatchSizes n maxB).length = numBatches n maxB := by
+  rw [optimalBatchSizes_eq]; simp
+
+end SharkVerif.Import
